@@ -724,10 +724,11 @@ def _cfg_ms(tier):
 Case("GeomMultiUnification", _cfg_ms, lambda s: GeomMultiUnification(sections=_secs(s["cfg"], s["fam"]), surface_name="w", shift_uni_mesh=s["cfg"]["shift"]), lambda s, kind: {}, tags=("nsec", "shift"), kinds=("gen0",))
 Case(
     "GeomMultiJoin",
-    lambda tier: [dict(nsec=n) for n in (2, 3)],
-    lambda s: GeomMultiJoin(sections=_secs(s["cfg"], s["fam"]), dim_constr=[np.array([1, 0, 1])] * (s["cfg"]["nsec"] - 1)),
+    # per-edge axis masks: uniform, and DIFFERENT masks of equal count on consecutive edges (unequal counts are rejected upstream)
+    lambda tier: [dict(nsec=2, masks=mk) for mk in ("101", "111", "010")] + [dict(nsec=3, masks=mk) for mk in ("101,101", "100,001", "110,011", "111,111", "010,100", "100,100")],
+    lambda s: GeomMultiJoin(sections=_secs(s["cfg"], s["fam"]), dim_constr=[np.array([int(c) for c in mk]) for mk in s["cfg"]["masks"].split(",")]),
     lambda s, kind: {},
-    tags=("nsec",),
+    tags=("nsec", "masks"),
     kinds=("gen0",),
 )
 
